@@ -1,3 +1,4 @@
+//go:debug randseednop=0
 package c17
 
 import (
@@ -6,4 +7,6 @@ import (
 	"verif/sim"
 )
 
+// randseednop=0: this package also runs scenarios of C10-C12 (vouch draws the registration job's time from the
+// math/rand global source; relaysim seeds it from the plan with rand.Seed, which is a no-op otherwise).
 func TestWorker(t *testing.T) { sim.WorkerMain(t) }
